@@ -1,5 +1,6 @@
 import TsVerif.Common.IO
 import TsVerif.C07.Judge
+import TsVerif.C07.Ranges
 /-!
 Driver for C07.  Input lines (written by harness/src/bin/c07.rs):
 
@@ -7,6 +8,8 @@ Driver for C07.  Input lines (written by harness/src/bin/c07.rs):
     dump <id> hasext=<0|1>  … dump_tree lines …  enddump
     arrcase <id> / arrop <op…> / arrreal <size> <cap> c0 c1 … / arrend <id> ops=.. answered=..
     inlq <id> pb pr pc sb sr sc la | inl can=.. inline=.. rb=pb pr pc sb sr sc la
+    crq <id> <n_old> s e … <n_new> s e … | cr fault=.. kind=.. off=.. acc_old=.. acc_new=.. out=..
+    lxq <id> <hexdoc> <n> s e … | <ops> | lx fault=.. kind=.. off=.. acc=.. trace=..
     bitsq <id> | bits inline=.. pb=.. pr=.. pc=.. sb=.. la=.. links=.. maxlinks=..
 
 Output: `<id> kind=<hist|dump|arr|inl> corr=<ok|na|DIFF:…> judge=<ok|FAIL:…> …`.
@@ -49,7 +52,9 @@ def step (s : St) (line : String) : IO St := do
   | "hist" :: id :: ws =>
     let d := (kvGet ws "live_delta").toInt?.getD 1
     let lk := kvGet ws "leak"
-    let j := if judgeBalance d && lk == "" then "ok"
+    let me := kvGet ws "memerr"
+    let j := if me != "" then s!"FAIL:memory-corruption:{me}"
+      else if judgeBalance d && lk == "" then "ok"
       else if lk != "" then s!"FAIL:allocator-balance:detail:{lk}"
       else s!"FAIL:allocator-balance:{d}"
     IO.println s!"{id} kind=hist corr=na judge={j} hkind={kvGet ws "kind"} lang={kvGet ws "lang"} allocs={kvGet ws "allocs"}"
@@ -141,6 +146,67 @@ def step (s : St) (line : String) : IO St := do
       else if natOf (kvGet ws "allocs") + natOf (kvGet ws "copyallocs") != natOf (kvGet ws "frees") then "FAIL:ess:allocations-not-balanced"
       else "ok"
     IO.println s!"{id} kind=ess corr={corr} judge={j} len={len}"
+    return s
+  | "crq" :: id :: rest =>
+    -- ts_range_array_get_changed_ranges on two range lists, arrays flush against a guard page
+    let (q, r) := rest.span (· != "|")
+    let v := q.map natOf
+    let r := r.drop 2
+    let rec pairs : List Nat → List BR
+      | a :: b :: t => ⟨a, b⟩ :: pairs t
+      | _ => []
+    let no := v.headD 0
+    let olds := pairs ((v.drop 1).take (2 * no))
+    let nn := (v.drop (1 + 2 * no)).headD 0
+    let news := pairs ((v.drop (2 + 2 * no)).take (2 * nn))
+    let fault := kvGet r "fault" == "1"
+    let conforming := kvGet r "acc_old" == "1" && kvGet r "acc_new" == "1"
+    let showOut := fun (o : List (Nat × Nat)) => ",".intercalate (o.map fun (a, b) => s!"{a}-{b}")
+    let fx := changedRanges .fixed olds news
+    let af := changedRanges .asis olds news
+    let realOut := kvGet r "out"
+    let oob := af.1.filter fun rd => !decide (ReadOk olds news rd)
+    let oobS := ",".intercalate (oob.map fun (isNew, i) => (if isNew then "new_ranges" else "old_ranges") ++ s!"[{i}]")
+    let corr := if fault || !conforming then "na"
+      else if fx.2.map showOut == some realOut || af.2.map showOut == some realOut then "ok"
+      else s!"DIFF:real:{realOut}:model-fixed:{(fx.2.map showOut).getD "stuck"}:model-as-found:{(af.2.map showOut).getD "stuck"}"
+    let j := if !conforming then "ok"
+      else if fault then s!"FAIL:out-of-bounds-read:ts_range_array_get_changed_ranges:{kvGet r "kind"}:bytes-past-the-array:{kvGet r "off"}:model-of-the-loop-as-found-reads:{oobS}"
+      else if !(fx.1.all fun rd => decide (ReadOk olds news rd)) then "FAIL:model-fixed-reads-out-of-bounds"
+      else "ok"
+    IO.println s!"{id} kind=cr corr={corr} judge={j} conforming={conforming} predicted_oob={oob.length}"
+    return s
+  | "lxq" :: id :: rest =>
+    -- the real Lexer driven by a script; trace of (range cursor, count, chunk != NULL) after every op
+    let r := (rest.reverse.takeWhile (· != "|")).reverse.drop 1
+    let fault := kvGet r "fault" == "1"
+    let acc := kvGet r "acc" == "1"
+    let parseSt := fun (w : String) => match w.splitOn "/" with
+      | [a, b, c] => some ({ idx := natOf a, count := natOf b, chunk := c == "1" } : LxS)
+      | _ => none
+    let entries := (kvGet r "trace").splitOn ","
+    let states := entries.map fun e => match e.splitOn ":" with
+      | [nm, st] => (nm, parseSt st)
+      | _ => (e, none)
+    let rec scan : List (String × Option LxS) → Option LxS → Option String
+      | [], _ => none
+      | (nm, some post) :: t, pre =>
+        if post.idx > post.count then some s!"cursor-beyond-count:{nm}" else
+        match pre with
+        | some p =>
+          if nm == "A" || nm == "K" then
+            let variant := if p.idx == p.count && p.chunk && !post.chunk then Variant.asis else Variant.fixed
+            if (advanceReads variant p).any (fun i => decide (p.count ≤ i)) then
+              some s!"ts_lexer__advance:included_ranges[{p.idx}]-of-{p.count}:entered-at-the-end-with-a-chunk"
+            else scan t (some post)
+          else scan t (some post)
+        | none => scan t (some post)
+      | (nm, none) :: _, pre => some s!"ts_lexer__advance:fault-in-op-{nm}:state-before:{match pre with | some p => s!"{p.idx}/{p.count}/{p.chunk}" | none => "?"}"
+    let j := if !acc then "ok"
+      else match scan states none with
+        | some e => s!"FAIL:out-of-bounds-read:{e}:guard-page-fault:{fault}"
+        | none => if fault then s!"FAIL:out-of-bounds-read:lexer:{kvGet r "kind"}:off:{kvGet r "off"}" else "ok"
+    IO.println s!"{id} kind=lx corr=na judge={j} ops={states.length}"
     return s
   | "bitsq" :: id :: rest =>
     -- compile-time facts of the real headers measured through the unity build, against the widths
